@@ -66,7 +66,7 @@ class C03(DiffProperty):
                   "need no slack. Tied to the code by differential execution (return code, full state and buffer image after every call) incl. the "
                   "exhaustive small-string sweep")
     level_note = ("partial: (1) completeness (a well-formed frame IS delivered given enough gap) is proved for the block loop and for one call from a "
-                  "state between messages (C03_call_delivers_accepted_frame, gap >= frame length + 16), and as liveness for a reader that makes room between messages (C03_spaced_reader_delivers_every_frame: every complete frame is delivered); liveness for a reader that only reacts to MissingBuffer: C03_call_never_refuses_complete_frame (a call in any state with any gap on a complete accepted frame delivers it or reports MissingBuffer in a state that is live again; never 'more input', never a decoding error), completed at ring level by C02_ring_round_delivers; (2) peek mode is covered by the correspondence run only (the call-level history theorem continues through MissingBuffer, "
+                  "state between messages (C03_call_delivers_accepted_frame, gap >= frame length + 16), and as liveness for a reader that makes room between messages (C03_spaced_reader_delivers_every_frame: every complete frame is delivered); liveness for a reader that only reacts to MissingBuffer: C03_call_never_refuses_complete_frame (a call in any state with any gap on a complete accepted frame delivers it or reports MissingBuffer in a state that is live again; never 'more input', never a decoding error), completed at ring level by C02_ring_round_delivers; C03_call_no_error_on_stream_prefix (on any prefix of a well-formed stream -- complete frames, the last one cut anywhere -- a call in any state with any gap yields a message, 'more input' or MissingBuffer, never a decoding error); (2) peek mode is covered by the correspondence run only (the call-level history theorem continues through MissingBuffer, "
                   "incl. resumption in the middle of a ZPE zero pair after the caller made room, and ends at a genuine decoding error). mpt_decode_command is covered by its own call-level and history theorems (C03_command_call_honest, C03_command_history_delivers; single-fragment, non-peek model) and by the C01 correspondence run. "
                   "Termination: the model is structurally recursive on the input (each byte read at most once); C-level termination is observed (per-case timeout). "
                   "All theorems closed under the global context.")
